@@ -187,7 +187,12 @@ def drive(work, seed, nmut, ninv):
             ops.append(mutate(S, rnd))
             snaps.append({"s": snap(S), "saved": saves[0] > before, "inv": invocation})
             if i == probe_at:
-                lockres.append(("held", probe()))
+                # several other instances knock one after the other while this one holds the workspace: every one is refused
+                # and none of them may take the holder's lock file away
+                for _k in range(rnd.choice([1, 2, 3])):
+                    lockres.append(("held", probe()))
+                    if not os.path.exists(os.path.join(work, ".bob-state.lock")):
+                        lockres.append(("held", "LOCK FILE REMOVED BY A REFUSED INSTANCE"))
         bs.finalize()
         finalized[invocation] = len(snaps) - 1
         take("after-finalize")
